@@ -297,13 +297,26 @@ def run_loop(engine, st, stmt, ctl):
     ctl.init(st)
     for g, (ginit, _gstep) in spec.ghosts.items():
         st.vars[g] = engine.box(st, engine.unbox_value(st, engine.eval_spec_value(st, ginit)))
+    names, paths = modified_paths(engine, stmt.body)
+    # locals that are first assigned inside the loop (and typed by the contract): from here on they hold an
+    # arbitrary value together with a flag `bound!<name>` (False now, True after an assignment, arbitrary at the
+    # loop head unless an invariant says more); reading the local generates the obligation that the flag is set
+    tnames0 = {n.id for n in ast.walk(stmt.target) if isinstance(n, ast.Name)} if isinstance(stmt, ast.For) else set()
+    for n in sorted(names - tnames0):
+        t = engine.contract.hints.get(n)
+        if n not in st.vars and n not in engine.bound and t is not None and not n.startswith("bound!"):
+            v = engine.havoc_t(st, t, f"unb.{n}", stmt)
+            for f in Ty.wf(v, f"unb.{n}"):
+                st.assume(f)
+            st.vars[n] = engine.alloc(st, v) if t.mutable else v
+            st.vars["bound!" + n] = Ty.mk_bool(False)
+    names |= {"bound!" + n for n in names if ("bound!" + n) in st.vars}
     # 1. entry
     ctl.bind_head(st)
     for j, inv in enumerate(spec.inv):
         g = engine.eval_spec(st, inv)
         engine.oblige(st, g, f"loop {k} invariant {j} holds on entry: {inv}", "inv-entry", stmt)
     # 2. arbitrary iteration
-    names, paths = modified_paths(engine, stmt.body)
     if isinstance(stmt, ast.For):
         # the element function of the iterable was fixed at loop entry: a body that
         # changes the container it iterates is outside this model
@@ -476,6 +489,22 @@ def describe_iter(engine, st, node):
                     n = z3.If(i.length < n, i.length, n)
                 return PosIter(z3.simplify(n), lambda p: Ty.mk_tuple([engine.unbox_value(st, i.elem(p)) for i in its])), None
             raise Unsupported("zip over unordered iterables")
+        if fn == "map" and len(node.args) == 2 and isinstance(node.args[0], (ast.Name, ast.Attribute)):
+            # map(f, xs) over an ordered iterable: element p is f(xs[p]) (f must be pure: a contract or external decides)
+            it, _ = describe_iter(engine, st, node.args[0 + 1])
+            if isinstance(it, PosIter):
+                fexpr = node.args[0]
+
+                def mapped(p, it=it, fexpr=fexpr):
+                    tmp = st.clone()
+                    tmp.vars["__map_arg"] = engine.box(tmp, engine.unbox_value(tmp, it.elem(p))) if hasattr(engine, "box") else it.elem(p)
+                    call = ast.Call(func=fexpr, args=[ast.Name(id="__map_arg", ctx=ast.Load())], keywords=[])
+                    ast.copy_location(call, node)
+                    ast.fix_missing_locations(call)
+                    return engine.unbox_value(tmp, engine.eval(tmp, call))
+
+                return PosIter(it.length, mapped), None
+            raise Unsupported("map over unordered iterable")
         if fn == "reversed" and len(node.args) == 1:
             it, _ = describe_iter(engine, st, node.args[0])
             if isinstance(it, PosIter):
